@@ -63,6 +63,7 @@ REV=[
  ("a method without a response block crashed the OpenAPI export",["C16"],"R-PANIC/P4o"),
  ("a failed build left unlinked refs in the schema cache",["C18"],"R-ERR/rollback"),
  ("deeply nested array values exhausted the stack",["C11","C07"],"R-TERM/T-depth"),
+ ("files of neighbouring packages were loaded into a dependency package",["C14","C02"],"R-DET/N5"),
 ]
 n=0
 for sub,props,expect in REV:
